@@ -29,8 +29,24 @@ TRUSTED = ["CPython ast", "pyarrow.compute result types: subsecond -> double, mu
 
 
 class ServerHooks(Hooks):
-    def __init__(self):
+    """scenario: 'no-auth' (no Authorization header) | 'bad-token' (header, token not in the session table) | 'ok'"""
+
+    def __init__(self, scenario="ok"):
         self.calls = []
+        self.scenario = scenario
+
+    def obj_method(self, I, recv, name, args, kwargs, site):
+        if recv.kind == "headers" and name == "get":
+            key = args[0].v if args and isinstance(args[0], Const) else None
+            if key == "Authorization":
+                return Const(None) if self.scenario == "no-auth" else Sym("AUTH_HEADER", typ="str", truthy=True)
+        return NotImplemented
+
+    def dict_get(self, I, dct, key, site):
+        if dct.shared_name == "server.sessions":
+            I.effect("session-lookup", key, site)
+            return Const(None) if self.scenario == "bad-token" else Obj("SESSION_CONN", kind="conn")
+        return NotImplemented
 
     def intercept(self, I, key, args, kwargs, site):
         # the response encoding (rowtype, arrow conversion) is not part of the authentication guard
@@ -56,13 +72,14 @@ def rule_auth(ctx):
     fn = prog.fn("server", "query_request")
 
     def run(I):
-        req = Obj("request", kind="request")
+        req = Obj("request", kind="request", headers=Obj("headers", kind="headers"))
         return I.call(I.global_lookup("server", "query_request"), [req], {}, None)
 
     n401 = nok = 0
-    for p in explore(prog, ServerHooks, run, max_paths=128):
-        auth_missing = any(t.startswith("truthy(request.headers.get") and v is False for t, v in p.assumed)
-        token_unknown = any("sessions.get" in t and t.startswith("truthy(") and v is False for t, v in p.assumed)
+    runs = [(sc, p) for sc in ("no-auth", "bad-token", "ok") for p in explore(prog, lambda sc=sc: ServerHooks(sc), run, max_paths=128)]
+    for sc, p in runs:
+        auth_missing = sc == "no-auth"
+        token_unknown = sc == "bad-token"
         touched = [e for e in p.effects if e[0] == "execute" or (e[0] == "call" and str(e[1]).endswith((".body", "json.loads", "gzip.decompress")))]
         if auth_missing or token_unknown:
             n401 += 1
